@@ -187,6 +187,13 @@ int verif_toupper(int c)
 #pragma CPROVER check disable "pointer-primitive"
 #pragma CPROVER check disable "pointer-overflow"
 #pragma CPROVER check disable "signed-overflow"
+/* a pointer walking a string object whose NUL sits at offset g_sl: stays inside [0, g_sl] */
+long g_sl;
+_Bool inv_walk(const void *p, const void *base)
+{
+	return __CPROVER_same_object(p, base) && (long) __CPROVER_POINTER_OFFSET(p) >= (long) __CPROVER_POINTER_OFFSET(base) &&
+		(long) __CPROVER_POINTER_OFFSET(p) <= g_sl;
+}
 long dec_ptr(const void *p)
 {
 	return (long) __CPROVER_OBJECT_SIZE(p) - (long) __CPROVER_POINTER_OFFSET(p);
